@@ -554,6 +554,14 @@ func (m *Manager) acquireTasks(envId uid.ID, taskDescriptors Descriptors) (err e
 			undeployedDescriptors = roOutcome.undeployed
 			undeployableDescriptors = roOutcome.undeployable
 
+			// The tasks launched by this attempt exist from now on, whatever becomes of the
+			// deployment: they go to the roster right away. Writing only the last attempt's
+			// tasks after the retries left the ones launched by earlier attempts running,
+			// unknown to any later cleanup, and dropped the status updates of all of them.
+			for taskPtr := range deployedTasks {
+				m.roster.append(taskPtr)
+			}
+
 			logWithId.WithField("tasks", deployedTasks).
 				Debugf("resourceOffers is done, %d new tasks running", len(deployedTasks))
 
@@ -597,6 +605,12 @@ func (m *Manager) acquireTasks(envId uid.ID, taskDescriptors Descriptors) (err e
 				break DEPLOYMENT_ATTEMPTS_LOOP
 			}
 
+			// the tasks this failed attempt did launch do not belong to the environment:
+			// unlocked, they fall to the next cleanup (the next attempt launches its own)
+			for taskPtr := range deployedTasks {
+				taskPtr.SetParent(nil)
+			}
+
 			log.WithField("partition", envId).
 				WithField("level", infologger.IL_Devel).
 				Errorf("Deployment failed %d/%d attempts. Check messages in IL to figure out why. Retrying...", attemptCount+1, MAX_ATTEMPTS_PER_DEPLOY_REQUEST)
@@ -638,10 +652,7 @@ func (m *Manager) acquireTasks(envId uid.ID, taskDescriptors Descriptors) (err e
 		}
 	}
 
-	// Finally, we write to the roster. Point of no return!
-	for taskPtr := range deployedTasks {
-		m.roster.append(taskPtr)
-	}
+	// The roster was written after each deployment attempt. Point of no return!
 	if deploymentSuccess {
 		for taskPtr := range deployedTasks {
 			taskPtr.GetParent().SetTask(taskPtr)
